@@ -88,7 +88,7 @@ def tree_prog(t):
     return prog
 
 
-def old_new(device, gens, no_acl=False, running_text=None, add_implicit=False, no_new=False):
+def old_new(device, gens, no_acl=False, running_text=None, add_implicit=False, no_new=False, annotate=False):
     """annet.gen._old_new_per_device with a stub context: empty (or the given) running config, the given partial generators"""
     from annet import gen
     args = types.SimpleNamespace(no_acl=no_acl, acl_safe=False, fail_on_empty_config=False, profile=False, no_acl_exclusive=False,
@@ -99,7 +99,7 @@ def old_new(device, gens, no_acl=False, running_text=None, add_implicit=False, n
     dg.ref[device] = []
     ctx = gen.OldNewDeviceContext(config="empty" if running_text is None else "running", args=args, downloaded_files={}, failed_files={},
                                   running={} if running_text is None else {device: running_text}, failed_running={}, no_new=no_new,
-                                  stdin=None, add_annotations=False, add_implicit=add_implicit, do_files_download=False, gens=dg, fetched_packages={},
+                                  stdin=None, add_annotations=annotate, add_implicit=add_implicit, do_files_download=False, gens=dg, fetched_packages={},
                                   failed_packages={}, device_count=1, do_print_perf=False)
     filterer = types.SimpleNamespace(for_ifaces=lambda d, i: "", for_peers=lambda d, p: "", for_policies=lambda d, p: "")
     return gen._old_new_per_device(ctx, device, filterer)
